@@ -86,6 +86,32 @@ CHECKS = {
          'Trusted: zmq queues deliver what is put into them; effect calls atomic. Not decided: composition of ten components under arbitrary message orders.',
          'DESIGN.md section 5 / C05'),
 }
+
+# clauses added by the seed campaigns (DESIGN 8.3); appended to the level text
+EXTRA = {
+ 'C01': ' Also: the slot count of a node is capped by free lfs/mem whenever that kind is requested; the DOWN marker survives the conversion of node occupancy into RO objects; every occupancy store uses the same kind for target, amount and guard; blocked cores/GPUs are marked whenever their own list is non-empty; the application-level roll-back and release address the node the slot names.',
+ 'C02': ' Also: colocate filter and history recording agree on which tag values count as a tag; the remaining-rank counter is decremented by the length of the list that extends the allocation; every stored placement comes from schedule_task of that task or from its own description; slots cut as slices carry a length test; Node.find_slot picks each kind from its own pool against its own request field; a failed placement never returns true from _try_allocation.',
+ 'C03': ' Also: no failure point after an occupancy write of the same slot without roll-back; once the arbitration removed the uid every path releases the task; signed / operator-valued updates evaluated per direction; lists drained by a thread are read and reset in one critical section.',
+ 'C04': ' Also: abstract evaluation of the loop flags (from a release every path reaches the wait-pool pass before the next reclaim); a true is_canceled answer is preceded by the CANCELED hand-on; a request is refused only when strictly larger than what a node offers; cancel of waiting tasks decided by value flow (pop / get+del, helpers, comprehensions).',
+ 'C05': ' Also: error discipline of every per-thing except handler (FAILED, exception recorded first, no non-final hand-on unless guarded by the task outcome); park/release pairing of early-bound tasks; the sticky-final rules of C06, the exit-code table of the raptor master and the forward flag of agent-side advances are re-evaluated here; the replayed state list stays non-empty and ends with the target. Known findings K6a-c (FAILED without recorded exception in three handlers).',
+ 'C06': ' Also: for every final current state caller guards plus Task._update refusals cover it (evaluated over the state constants); _task_state_progress is history independent and evaluated for all state pairs; nothing removes callbacks on the dispatch path; the dispatcher passes its own task and state to every callback.',
+ 'C07': ' Also: after the spawn every normal return has put the task on the queue the watcher drains; whoever removes the uid finishes the task; arbitration recognised through helper methods and atomic pop; lists drained by the timeout watcher / collector are read and reset in one critical section; the launcher cancel escalates to SIGKILL.',
+ 'C08': ' Also: the post-insert cancel check of the wait pool is unconditional; a scalar uid is wrapped not iterated; the cancel list only grows outside its initialisation; no statement drops a whole priority level; poll() results are compared with None; the ownership rule of C07 is re-evaluated here.',
+ 'C09': ' Also: launcher selection is history independent; shape of the rank count (no average over de-duplicated nodes, no node count as rank count, host files that name each node once carry multiplicity); find_launcher tests the verdict element of can_launch; files are opened truncating; id cursors advance by the number of ids used.',
+ 'C10': ' Also: every described pre/post command is guarded by itself on the reconstructed script text; rp_error exits with a non-zero literal and the scripts exit with the captured status; no element of arguments/environment is filtered away and the environment export is not control dependent on named_env; the per-rank switch is on when any entry is a dict; each of stdout/stderr is normalised by a test on itself.',
+ 'C11': ' Also: ordered dispatch by substring containment over if-chains and literal tables; an exception of a staging operation leaves the per-task handler; tarball member names and extraction root agree; every backend operation reaches its file-system effect on every non-raising path; results of shell call-outs are tested (fixed F22).',
+ 'C12': ' Also: a pilot record is created only when none exists; the key of the early pool and the pilot handed to _assign_pilot denote the same pilot; usage is debited only beyond AGENT_EXECUTING and for every final state; cached session sandbox URLs are not changed through an alias.',
+ 'C13': ' Also: no guard on the way to the FAILED update tests membership in a table another method shrinks; no uncaught foreign callback before the pilot-specific callbacks; the registered callback is not taken off a pilot outside close; the notified state is written before the callbacks run; Task._update copies the attributes the callback tests; the bulk and replay rules of C14 are re-evaluated here.',
+ 'C14': ' Also: _update_pilot evaluated on every (current, notified) pair against the replay specification and for unknown pilots; a recorded final cause survives every later stop(); the scheduler-side pilot record keeps the later of recorded and notified state; the bootstrapper reads the final-state file under file tests only (block model of the shell text).',
+ 'C15': ' Also: the check list only shrinks; one clock per timeout comparison, NOW minus START; who wakes an event-driven wait; hand-over of the timeout between wait anchors; the earliest requested state bounds wait_tasks. Known findings K7a-c (membership polling misses transient requested states).',
+ 'C16': ' Also: side identity separates the pilots; who may wire, exactly once per side; message-class defaults agree with the forwarder presence test; the value compared with the origin is the value stamped; each advertised proxy channel takes its endpoints from its own bridge.',
+ 'C17': ' Also: rounding direction and max-combination on the def-use chain to the node count; resolution and sizing do not write to objects that outlive the call; the schema merged is the requested one (default only when none was requested).',
+ 'C18': ' Also: iteration domain and guards of the blocked-resource marking; slot-count filter vs cpn override; RMInfo attributes that size the node entries are final when the entries are built; non-uniform node files are refused; registry key written = key read; threads_per_core reaches the tuple count; separator-cursor arithmetic of the vnode parser.',
+ 'C19': ' Also: the mapping that was normalised reaches the base constructor with the highest precedence; alias guards pass for every set value of the deprecated attribute; every payload entry the decoder reads comes from a caller-supplied parameter; RO keywords get the part of their own name/position; each kind is converted independently of the other.',
+ 'C20': ' Also: routing table over the request modes (three-valued evaluation); all-or-nothing allocation; register before hand-on; kind tested free = kind marked = kind recorded; the raptor backlog accumulates.',
+}
+SHARED = ' Shared rule Rnn.S on the anchor files: sibling fragments that differ by one systematic renaming apply it at every aligned position (forgot-to-rename).'
+
 PENDING = 'check not built yet in this round (static rules designed in DESIGN.md section 5); not claimed until the checker exists'
 NA = {}
 
@@ -103,9 +129,9 @@ def main():
                 'evidence_file': 'evidence/%s.json' % pid,
                 'replay_cmd_template': './check %s --replay {path}' % pid,
                 'engine': 'rpsa',
-                'level_claimed': {'category': 'other', 'text': text, 'design_ref': ref},
+                'level_claimed': {'category': 'other', 'text': text + EXTRA.get(pid, '') + SHARED, 'design_ref': ref},
                 'level_note': note,
-                'technique': 'static analysis: ' + tech,
+                'technique': 'static analysis: ' + tech + '; finite-domain evaluation of guards, reaching definitions, sibling-consistency (anti-unification of parallel fragments); verdict by consensus over the canonical tree and behaviour-preserving normalised views',
             })
         else:
             na.append({'property_id': pid, 'reason': NA.get(pid, PENDING)})
